@@ -49,23 +49,24 @@ def violation_record(h, i, clause, extra, prop="C09"):
 
 
 def plan_seeds(n, thorough):
+    """seed 0 runs everything; thorough: every other seed too; quick: the other five seeds share the histories, so that
+    EVERY history runs in a second process with a non-zero hash seed"""
     plan = {0: list(range(n))}
     others = [s for s in SEEDS if s != 0]
     if thorough:
         for s in others:
             plan[s] = list(range(n))
     else:
-        per = max(1, n // 4)
         for k, s in enumerate(others):
-            plan[s] = [(k * per // 2 + j) % n for j in range(per)]
+            plan[s] = [j for j in range(n) if j % len(others) == k]
     return plan
 
 
 def run(ctx):
     rng = ctx.rng
-    n = ctx.n(300, 2600)
+    n = ctx.n(260, 2000)
     histories = [G.history_c09(rng) for _ in range(n)]
-    # regression corpus first: the three defects this property exhibited on the pinned tree
+    # regression corpus first: defect 15 (open_span leak) on the four writers that have the flag
     histories = CORPUS + histories
     # pristine twins: the last write of a history, alone in a fresh process ("after other sets were written" /
     # "in another process" must give the same bytes as that)
@@ -73,23 +74,28 @@ def run(ctx):
     for hi in range(len(histories)):
         h = histories[hi]
         ws = [k for k, op in enumerate(h) if op["op"] == "write"]
-        seen_keys, made = set(), 0
-        for pos, k in reversed(list(enumerate(ws))):
+        cands = []
+        seen_keys = set()
+        for pos, k in enumerate(ws):
             op = h[k]
-            key = json.dumps([op["kind"], op.get("wopts"), op.get("kw"), op["set"]], sort_keys=True)
-            if pos == 0 or key in seen_keys or made >= (2 if len(h) <= 5 else 1):
-                continue
+            nedits = sum(1 for q in h[:k] if q["op"] == "edit" and q["set"] == op["set"])
+            key = json.dumps([op["kind"], op.get("wopts"), op.get("kw"), op["set"], nedits], sort_keys=True)
+            if pos == 0 or key in seen_keys:
+                seen_keys.add(key)
+                continue             # first write of the process / same (writer, options, set, edits so far) again
             seen_keys.add(key)
-            # this (writer, options, set) is written after something else was written in the process
+            # written after something else was written in this process; first the writes that follow an edit of
+            # their own set (object-keyed memoisation), then the later ones
+            cands.append((0 if nedits and any(h[j]["op"] == "write" and h[j]["set"] == op["set"] for j in ws[:pos]) else 1,
+                          -pos, pos))
+        for _, _, pos in sorted(cands)[:(2 if len(h) <= 5 else 1) + (1 if cands and sorted(cands)[0][0] == 0 else 0)]:
             t = G.pristine_twin(h, pos)
-            if t is not None and not any(json.dumps([q["kind"], q.get("wopts"), q.get("kw"), q["set"]], sort_keys=True) == key
-                                         for q in h[:ws[0] + 1] if q["op"] == "write"):
+            if t is not None:
                 twins.append((hi, len(histories)))
                 histories.append(t)
-                made += 1
     n = len(histories)
     r = C.check_batch(histories, ctx.repo, plan_seeds(n, ctx.thorough), "C09", ("write",))
-    res = {"evaluations": 0, "nontrivial": set(), "violations": [], "disagreements": [], "streams": 3,
+    res = {"evaluations": 0, "nontrivial": set(), "violations": [], "disagreements": [], "streams": 0,
            "distribution": {}, "notes": []}
     dist = res["distribution"]
     kinds, errs, reuse, nops = {}, {}, 0, 0
@@ -136,6 +142,10 @@ def run(ctx):
                     pass
             res["violations"].append(violation_record(h, i, clause, extra))
     C.detail_summary(histories, r["details"], res)
+    # correspondence streams actually run: (1) model snapshots vs real heap per operation, (2) pristine twins,
+    # (3) the same histories in processes with other hash seeds (each evaluated by the oracle on its own)
+    res["streams"] = 1 + (1 if pairs else 0) + (1 if len(r["by_seed"]) > 1 else 0)
+    dist["oracle_evaluated_in_processes_with_hashseed"] = sorted(r["by_seed"])
     for (hi, d) in r["disagreements"][:40]:
         res["disagreements"].append({"history": histories[hi], "op_index": d["i"], "what": d["what"],
                                      "model": d.get("model"), "impl": d.get("impl")})
@@ -172,7 +182,9 @@ def run(ctx):
                    "is used more than once or that has a pristine twin; distinct histories counted.")
     res["samples"] = [C.describe_history(h) for h in histories[len(CORPUS):len(CORPUS) + 5]]
     res["clauses"] = {
-        "theorem": ["a write (any of the 8 writer models, any options, any instance state, also on its error exits) "
+        "theorem": ["THE MODEL MEETS THE ORACLE: ok_c09 evaluated on the model's own observations of any history of reads, "
+                    "builds, edits and writes reports nothing (C09_model_meets_oracle)",
+                    "a write (any of the 8 writer models, any options, any instance state, also on its error exits) "
                     "leaves every pre-existing location, hence the snapshot of every caption set, unchanged; lifted "
                     "to arbitrary histories",
                     "deepcopy allocates only fresh locations and the copy is closed (points only into itself)",
@@ -181,8 +193,10 @@ def run(ctx):
         "correspondence_only": ["the model abstracts each writer to its effect summary (copy, assignments, instance "
                                 "state, error exits, span state machine); that the real writers have exactly these "
                                 "effects is checked per operation on the real heap",
-                                "byte-identical output for equal (writer, options, snapshot): observed on the real "
-                                "writers within a process and across 6 processes with different PYTHONHASHSEED",
+                                "byte-identical output for equal (writer, options, snapshot incl. internal sharing): "
+                                "compared between runs of the real writers only (same object, fresh object, pristine twin "
+                                "process, a second process with another PYTHONHASHSEED; quick: one extra seed per history, "
+                                "thorough: all six) - never with a model prediction",
                                 "WebVTT/SRT/MicroDVD/SCC error exits are observed, not predicted"]}
     res["trusted_extra"] = ["harness/iso_worker.py, iso_snap.py, iso_core.py: heap observers (snapshot, id()-graph "
                             "walk, copy.deepcopy spy) and the comparison with the model's predictions"]
